@@ -1,5 +1,6 @@
 --------------------------- MODULE MC_EquationObj ---------------------------
 EXTENDS EquationObj, Json
-MC_ObjForms == { [s1 |-> s, br |-> FALSE, s2 |-> "", body |-> b] : s \in {"", "-"}, b \in {"x", "y"} }
+MC_ObjForms == { [s1 |-> s, br |-> FALSE, s2 |-> "", body |-> "x", w2 |-> w] : s \in {"", "-"}, w \in {1, 2, 3} }
+               \cup { [s1 |-> s, br |-> FALSE, s2 |-> "", body |-> "y", w2 |-> 2] : s \in {"", "-"} }
 Emit == (Len(ops) = MaxOps) => PrintT(<< "BEH", ToJson([ops |-> ops]) >>)
 =============================================================================
